@@ -999,8 +999,13 @@ int vorbis_synthesis_lapout(vorbis_dsp_state *v,float ***pcm){
     v->centerW=0;
   }
 
-  /* solidify buffer into contiguous space */
-  if((v->lW^v->W)==1){
+  /* solidify buffer into contiguous space.  Right after the first
+     block (init, restart or seek) there is no lapped data yet: the
+     only thing held is that block's second half at n1, and nothing
+     is to be moved */
+  if(v->pcm_returned>=n1){
+    /* nothing to do */
+  }else if((v->lW^v->W)==1){
     /* long/short or short/long */
     for(j=0;j<vi->channels;j++){
       float *s=v->pcm[j];
